@@ -1088,6 +1088,8 @@ class SRPExtension(TLSExtension):
         """
 
         self.identity = p.getVarBytes(1)
+        if p.getRemainingLength():
+            raise DecodeError("Extra data after extension payload")
 
         return self
 
